@@ -95,14 +95,14 @@ def rotateIndex (k : Int) (c : Int × Int) : Int × Int :=
 def sym3 (c : Int × Int) : List (Int × Int) :=
   if c.1 = 0 ∧ c.2 = 0 then [] else [(-c.1 - c.2, c.1), (c.2, -c.1 - c.2)]
 
-/-- `overlapsWhichSymmetryLine`: 0 = none, 1 = 0°, 2 = 120°, 3 = 60°, 4 = centre.
-(constants.py: BOUNDARY_0_DEGREES=1, BOUNDARY_120_DEGREES=2, BOUNDARY_60_DEGREES=3, BOUNDARY_CENTER=4) -/
+/-- `overlapsWhichSymmetryLine`: 0 = None, 1 = 0°, 2 = 60°, 3 = 120°, 4 = centre.
+(constants.py: BOUNDARY_0_DEGREES=1, BOUNDARY_60_DEGREES=2, BOUNDARY_120_DEGREES=3, BOUNDARY_CENTER=4) -/
 def lineOf (c : Int × Int) : Nat :=
   let i := c.1; let j := c.2
   if i = 0 ∧ j = 0 then 4
   else if i > 0 ∧ i = -2 * j then 1
-  else if i = j ∧ i > 0 ∧ j > 0 then 3
-  else if j = -2 * i ∧ j > 0 then 2
+  else if i = j ∧ i > 0 ∧ j > 0 then 2
+  else if j = -2 * i ∧ j > 0 then 3
   else 0
 
 /-- `isInFirstThird(locator, includeTopEdge)`; Python `//` and `%` on positive ring. -/
@@ -133,5 +133,108 @@ def rotatedCell (cell : Int) (orient : Int) : Option Int :=
 /-- running 1-based cell number of (ring,pos) -/
 def cellNumber (ring pos : Int) : Int :=
   if ring ≤ 1 then pos else (totalUpTo (ring - 1).toNat : Int) + pos
+
+/-- twice the rotation by +60° (counter-clockwise) acting on the integer coefficient vector of
+`coef`: flats up  (a,b) ↦ ((a−b)/2, (3a+b)/2);  corners up (a,b) ↦ ((a−3b)/2, (a+b)/2).
+(From x' = x/2 − (√3/2)y, y' = (√3/2)x + y/2 in the basis stated at `coef`.) -/
+def R60x2 (cornersUp : Bool) (ab : Int × Int) : Int × Int :=
+  if cornersUp then (ab.1 - 3 * ab.2, ab.1 + ab.2) else (ab.1 - ab.2, 3 * ab.1 + ab.2)
+
+/-- `HexGrid.locatorInDomain(locator, symmetryOverlap)`; `third` = the grid's symmetry domain is
+THIRD_CORE. -/
+def hexInDomain (third : Bool) (overlap : Bool) (c : Int × Int) : Bool :=
+  if third then inFirstThird overlap c else true
+
+/-- `HexGrid.getSymmetricEquivalents`: 0 = full core, 1 = third core periodic, anything else
+raises NotImplementedError (`none`). -/
+def hexEquivalents (sym : Nat) (c : Int × Int) : Option (List (Int × Int)) :=
+  if sym = 1 then some (sym3 c) else if sym = 0 then some [] else none
+
+/-! ### `utils/iterables.py` pivot (Python slice semantics) -/
+
+/-- `items[p:]` -/
+def pyFrom {α} (l : List α) (p : Int) : List α :=
+  if p ≥ 0 then l.drop p.toNat else l.drop ((l.length : Int) + p).toNat
+/-- `items[:p]` -/
+def pyTo {α} (l : List α) (p : Int) : List α :=
+  if p ≥ 0 then l.take p.toNat else l.take ((l.length : Int) + p).toNat
+/-- `iterables.pivot(items, position)` = `items[position:] + items[:position]` -/
+def pivot {α} (l : List α) (p : Int) : List α := pyFrom l p ++ pyTo l p
+
+/-! ### `HexBlock.rotate` (blocks.py)
+
+Numbers of the form `re + ir·√3` with rational `re`, `ir` (closed under rotation by multiples
+of 60°, so the model of the coordinate / displacement rotation is exact). -/
+structure Q3 where
+  re : Rat
+  ir : Rat
+deriving DecidableEq, Repr
+
+namespace Q3
+def ofRat (q : Rat) : Q3 := ⟨q, 0⟩
+def add (a b : Q3) : Q3 := ⟨a.re + b.re, a.ir + b.ir⟩
+def sub (a b : Q3) : Q3 := ⟨a.re - b.re, a.ir - b.ir⟩
+def mul (a b : Q3) : Q3 := ⟨a.re * b.re + 3 * a.ir * b.ir, a.re * b.ir + a.ir * b.re⟩
+/-- x/2 -/
+def half (a : Q3) : Q3 := ⟨a.re / 2, a.ir / 2⟩
+/-- x·√3/2 -/
+def halfSqrt3 (a : Q3) : Q3 := ⟨3 * a.ir / 2, a.re / 2⟩
+end Q3
+
+/-- one rotation by +60°: (x, y) ↦ (x/2 − (√3/2)y, (√3/2)x + y/2) -/
+def rot60xy (p : Q3 × Q3) : Q3 × Q3 :=
+  (Q3.sub (Q3.half p.1) (Q3.halfSqrt3 p.2), Q3.add (Q3.halfSqrt3 p.1) (Q3.half p.2))
+
+def iter {α} (f : α → α) : Nat → α → α
+  | 0, a => a
+  | n + 1, a => iter f n (f a)
+
+/-- rotation by k·60° for k ≥ 0 (the rotation matrix of `_rotateChildLocations` /
+`_rotateDisplacement` at `rad = k·π/3`) -/
+def rotXY (k : Nat) (p : Q3 × Q3) : Q3 × Q3 := iter rot60xy k p
+
+/-- a child's `spatialLocator`, in the order `_rotateChildLocations` tests the kinds -/
+inductive ChildLoc where
+  | multi (cells : List (Int × Int × Int))
+  | coord (x y : Q3) (z : Rat)
+  | index (i j k : Int)
+  | none
+deriving DecidableEq, Repr
+
+/-- state of a HexBlock that `rotate` touches -/
+structure Block where
+  hasGrid : Bool
+  children : List ChildLoc
+  /-- `p.orientation[2]` (degrees) -/
+  orientation : Rat
+  /-- values of the CORNERS/EDGES parameters that are lists / arrays -/
+  boundary : List (List Rat)
+  /-- (`p.displacementX`, `p.displacementY`) when both are set -/
+  disp : Option (Q3 × Q3)
+deriving DecidableEq, Repr
+
+def rotCell (rotNum : Int) (c : Int × Int × Int) : Int × Int × Int :=
+  let r := rotateIndex rotNum (c.1, c.2.1)
+  (r.1, r.2, c.2.2)
+
+/-- `_rotateChildLocations` for one child -/
+def rotChild (rotNum : Int) : ChildLoc → ChildLoc
+  | .multi cells => .multi (cells.map (rotCell rotNum))
+  | .coord x y z => let p := rotXY rotNum.toNat (x, y); .coord p.1 p.2 z
+  | .index i j k => let r := rotCell rotNum (i, j, k); .index r.1 r.2.1 r.2.2
+  | .none => .none
+
+/-- `_rotateBoundaryParameters` for one list-valued parameter: only length-6 values move -/
+def rotBoundary (rotNum : Int) (v : List Rat) : List Rat :=
+  if v.length = 6 then pivot v (-rotNum) else v
+
+/-- `HexBlock.rotate(rad)` with `rotNum = round((rad mod 2π)/60°)` given (0 ≤ rotNum ≤ 6) and
+`rad` = rotNum·60° exactly. -/
+def rotateBlock (rotNum : Int) (b : Block) : Block :=
+  { hasGrid := b.hasGrid
+    children := if b.hasGrid then b.children.map (rotChild rotNum) else b.children
+    orientation := b.orientation + rotNum * 60
+    boundary := b.boundary.map (rotBoundary rotNum)
+    disp := b.disp.map (rotXY rotNum.toNat) }
 
 end ArmiVerif.Hex
